@@ -313,7 +313,7 @@ def run(tier, seed):
     rep.coverage = {
         "evaluations": acc.n("evaluations"),
         "distinct_nontrivial": acc.n("nontrivial"),
-        "rule": "verlet: (potential in {harmonic, quartic, soft pair, 3-atom LJ}) x masses {1, 63.5, mixed} x 3 start geometries x 2 momentum patterns x dt {0.25,0.5,1,2} fs x steps {1,5,20} reversibility runs + energy-error-ratio runs (max |dE| over 20/40 steps at dt and dt/2); momenta: 3 T x 2 mass sets x 6 quantile patterns x forced/unforced; acceptance: every execution (all normal-draw menu answers, check_move answers with max_attempts=2, verdicts) of real Hamiltonian trials to depth 2-3, one evaluation per trial that reached the criteria; non-trivial = threshold strictly inside (0,1) / energy error above rounding",
+        "rule": "verlet: (potential in {harmonic, quartic, soft pair, 3-atom LJ}) x masses {1, 63.5, mixed} x 3 start geometries x 2 momentum patterns x dt {0.25,0.5,1,2} fs x steps {1,5,20} reversibility runs (also with a FixAtoms present but not applied, and with a bond-length constraint applied by the integrator) + energy-error-ratio runs (max |dE| over 20/40 steps at dt and dt/2; time step given to the constructor / assigned afterwards / one integrator object for all systems); momenta: 3 T x 2 mass sets x 6 quantile patterns x forced/unforced; acceptance: every execution (all normal-draw menu answers, check_move answers with max_attempts=2, verdicts) of real Hamiltonian trials to depth 2-3, one evaluation per trial that reached the criteria; non-trivial = threshold strictly inside (0,1) / energy error above rounding",
         "hamiltonian_executions": acc.n("executions"),
         "exhaustive": True,
         "samples": [{"pot": "quartic", "masses": 63.5, "dt_fs": 1.0, "steps": 20, "check": "integrate; p -> -p; integrate returns to start (1e-9)"}],
